@@ -1,11 +1,15 @@
 import XmlRsModel.Dom
+import XmlRsModel.Thm.C12
+import XmlRsModel.Lemmas.DomEffect
 /-! Property C14: document order survives edits; query(edited doc) = query(re-parsed copy).
     The library now REBUILDS the order vector from the tree after every structural edit (one pre-order
     walk: element, its attributes with their value items, its children); the model therefore defines
     the key of a node as its position in that walk, and a detached node has key 0.  Proved: the keys
     of the attached nodes are exactly 1..n along the walk (non-zero, distinct, strictly increasing)
-    whenever the ids of the tree are distinct, for every state; a node outside the document tree has
-    key 0.  The "consequently" (queries on the edited document equal queries on a fresh parse of its
+    whenever the ids of the tree are distinct, for every state - and they are distinct in every state reachable
+    from a parsed document by any history of the 25 operations (`C12.no_node_twice`), so the statement holds AT EVERY
+    POINT OF ANY EDIT HISTORY (`keys_after_any_history`); a node outside the document tree has key 0
+    (`removed_node_key_zero`: in particular the node handed back by removeChild).  The "consequently" (queries on the edited document equal queries on a fresh parse of its
     serialization) is checked on the real code after every step of every history. -/
 namespace XmlRs.C14
 open XmlRs XmlRs.Dom
@@ -41,5 +45,44 @@ theorem keys_strictly_increase (s : St) (hn : (idsOf s.doc).Nodup) (j k : Nat) (
     attributes before the children -/
 theorem walk_order (j : Nat) (k : Kind) (d : Str) (as ks : List Node) :
     idsOf (.mk j k d as ks) = j :: (idsOfL as ++ idsOfL ks) := by simp [idsOf]
+
+/-- the ids of the document tree are pairwise distinct in every reachable state -/
+theorem doc_ids_nodup (d : IDoc) (ops : List Op) : (idsOf (C12.run (buildSt d) ops).doc).Nodup := by
+  have h := (C12.no_node_twice d ops).1
+  have e : idsOfL (C12.run (buildSt d) ops).roots = idsOf (C12.run (buildSt d) ops).doc ++ idsOfL (C12.run (buildSt d) ops).detached := by
+    simp [St.roots, idsOfL]
+  rw [e] at h
+  exact (List.nodup_append.mp h).1
+
+/-- AT EVERY POINT OF ANY EDIT HISTORY of any parsed document: the keys of the attached nodes are 1, 2, 3, … along the
+    pre-order walk - non-zero, pairwise distinct, strictly increasing -/
+theorem keys_after_any_history (d : IDoc) (ops : List Op) (s : St) (hs : s = C12.run (buildSt d) ops) (j k : Nat) (hjk : j < k)
+    (hk : k < (idsOf s.doc).length) :
+    0 < orderKey s ((idsOf s.doc)[j]'(by omega)) ∧
+    orderKey s ((idsOf s.doc)[j]'(by omega)) < orderKey s ((idsOf s.doc)[k]) ∧
+    orderKey s ((idsOf s.doc)[k]) = k + 1 := by
+  have hn : (idsOf s.doc).Nodup := by rw [hs]; exact doc_ids_nodup d ops
+  refine ⟨?_, keys_strictly_increase s hn j k hjk hk, keys_follow_the_walk s hn k hk⟩
+  rw [keys_follow_the_walk s hn j (by omega)]; omega
+
+/-- a node that has just been taken out with removeChild has key 0: it is a detached root, and a node is never in two
+    trees -/
+theorem removed_node_key_zero (s s' : St) (p c c' : Nat) (hi : Inv s) (h : step s (.removeChild p c) = (s', .node c')) :
+    orderKey s' c = 0 := by
+  apply detached_key_zero
+  intro hmem
+  have hi' : Inv s' := by have := C12.inv_step s (.removeChild p c) hi; rw [h] at this; exact this
+  simp only [step] at h
+  obtain ⟨pn, pn', cn, hp, hc, hp', hk, hdet⟩ := removeChild_effect s s' p c c' hi h
+  have hid : cn.id = c := (findInL_some c s.roots cn hc).1
+  -- c occurs in the document tree and (as root) in a detached tree: twice among the roots
+  have h1 : 0 < cnt c s'.doc := (mem_ids_iff c s'.doc).mp hmem
+  have h2 : 0 < cntL c s'.detached := by
+    have : 0 < cnt c cn := by rw [← hid]; exact cnt_id_pos cn
+    have hle := isSubL_cnt cn c s'.detached (isSubL_of_mem cn s'.detached hdet)
+    omega
+  have := hi'.1 c
+  rw [cntL_roots] at this
+  omega
 
 end XmlRs.C14
